@@ -139,7 +139,13 @@ class ModbusRtuFramer(ModbusFramer):
         """
         if len(self._buffer) > self._hsize:
             if not self._header:
-                self.populateHeader()
+                try:
+                    self.populateHeader()
+                except IndexError:
+                    # the frame length cannot be derived from the bytes
+                    # received so far: wait for more data
+                    self._header = {}
+                    return False
 
             return self._header and len(self._buffer) >= self._header['len']
         else:
@@ -234,6 +240,11 @@ class ModbusRtuFramer(ModbusFramer):
                     _logger.debug("Not a valid unit id - {}, "
                                   "ignoring!!".format(self._header['uid']))
                     self.resetFrame()
+            elif self._buffer:
+                # checkFrame() empties the buffer itself on a CRC mismatch; if
+                # bytes are still there the frame is merely incomplete: keep
+                # them and recompute the header when more data has arrived
+                self._header = {}
             else:
                 _logger.debug("Frame check failed, ignoring!!")
                 self.resetFrame()
